@@ -38,6 +38,8 @@ pub struct TableCfg {
     pub kmod: KMod,
     pub nmod: NMod,
     pub with_b: bool,
+    /// `b BOOLEAN NOT NULL`: a BOOLEAN column is NULL where its pattern does not match the line at all
+    pub b_not_null: bool,
     pub with_ts: bool,
     /// column order: permutation of the available columns
     pub order: Vec<&'static str>,
@@ -57,7 +59,8 @@ pub fn gen_table_cfg(rng: &mut Rng) -> TableCfg {
     let variant = *rng.pick(&[Variant::Capture, Variant::Capture, Variant::Capture, Variant::Split, Variant::Multi, Variant::Json]);
     let kmod = *rng.pick(&[KMod::None, KMod::None, KMod::NotNull, KMod::Default, KMod::Trim]);
     let nmod = *rng.pick(&[NMod::None, NMod::None, NMod::NotNull, NMod::Default]);
-    let with_b = variant == Variant::Capture && rng.chance(1, 3);
+    let with_b = (variant == Variant::Capture || variant == Variant::Multi) && rng.chance(1, 3);
+    let b_not_null = with_b && rng.chance(1, 3);
     let with_ts = variant == Variant::Capture && rng.chance(1, 4);
     let mut order: Vec<&'static str> = vec!["k", "n", "r"];
     if with_b {
@@ -69,12 +72,12 @@ pub fn gen_table_cfg(rng: &mut Rng) -> TableCfg {
     if rng.chance(1, 2) {
         rng.shuffle(&mut order);
     }
-    TableCfg { variant, kmod, nmod, with_b, with_ts, order }
+    TableCfg { variant, kmod, nmod, with_b, b_not_null, with_ts, order }
 }
 
 /// A plain configuration: capture pattern, no modifiers.
 pub fn plain_table_cfg() -> TableCfg {
-    TableCfg { variant: Variant::Capture, kmod: KMod::None, nmod: NMod::None, with_b: false, with_ts: false, order: vec!["k", "n", "r"] }
+    TableCfg { variant: Variant::Capture, kmod: KMod::None, nmod: NMod::None, with_b: false, b_not_null: false, with_ts: false, order: vec!["k", "n", "r"] }
 }
 
 pub fn table_defs(cfg: &TableCfg) -> String {
@@ -89,6 +92,7 @@ pub fn table_defs(cfg: &TableCfg) -> String {
         NMod::NotNull => " NOT NULL",
         NMod::Default => " DEFAULT 7",
     };
+    let bmod = if cfg.b_not_null { " NOT NULL" } else { "" };
     let mut cols = Vec::new();
     match cfg.variant {
         Variant::Capture => {
@@ -97,7 +101,7 @@ pub fn table_defs(cfg: &TableCfg) -> String {
                     "k" => format!("line[1] => k TEXT{}", kmod),
                     "n" => format!("line[2] => n INT{}", nmod),
                     "r" => "line[3] => r REAL".to_owned(),
-                    "b" => "line[4] => b BOOLEAN".to_owned(),
+                    "b" => format!("line[4] => b BOOLEAN{}", bmod),
                     "d" => "line[5], line[6], line[7], line[8], line[9], line[10], line[11] => d TIMESTAMP".to_owned(),
                     _ => unreachable!(),
                 });
@@ -135,10 +139,11 @@ pub fn table_defs(cfg: &TableCfg) -> String {
                     "k" => format!("pk[1] => k TEXT{}", kmod),
                     "n" => format!("pn[1] => n INT{}", nmod),
                     "r" => "pr[1] => r REAL".to_owned(),
+                    "b" => format!("pb[1] => b BOOLEAN{}", bmod),
                     _ => unreachable!(),
                 });
             }
-            format!("CREATE TABLE t(pk = 'k=([a-z ]+)', pn = 'n=(-?[0-9a-z]+)', pr = 'r=(-?[0-9.]+)', {});", cols.join(", "))
+            format!("CREATE TABLE t(pk = 'k=([a-z ]+)', pn = 'n=(-?[0-9a-z]+)', pr = 'r=(-?[0-9.]+)', pb = 'b=(y)', {});", cols.join(", "))
         }
     }
 }
@@ -300,6 +305,9 @@ pub fn render_line(cfg: &TableCfg, s: &LineSpec) -> String {
             if let Some(r) = &s.r {
                 parts.push(format!("r={}", r));
             }
+            if cfg.with_b && s.b {
+                parts.push("b=y".to_owned());
+            }
             parts.join(" | ")
         }
     }
@@ -343,7 +351,7 @@ pub fn expected_row(cfg: &TableCfg, s: &LineSpec) -> Option<Vec<Cell>> {
         Variant::Json => (s.k.clone(), s.n.clone(), s.r.clone()),
         Variant::Multi => {
             // `k=([a-z ]+)` is greedy over blanks: the rendered separator " | " starts with a blank
-            let k = s.k.clone().map(|k| if s.n.is_some() || s.r.is_some() { format!("{} ", k) } else { k });
+            let k = s.k.clone().map(|k| if s.n.is_some() || s.r.is_some() || (cfg.with_b && s.b) { format!("{} ", k) } else { k });
             (k, s.n.clone(), s.r.clone())
         }
         Variant::Split => {
@@ -385,7 +393,8 @@ pub fn expected_row(cfg: &TableCfg, s: &LineSpec) -> Option<Vec<Cell>> {
             "k" => k_val.clone(),
             "n" => n_val.clone(),
             "r" => r_val.clone(),
-            "b" => Cell::Bool(s.b),
+            // own pattern (multi): NULL where that pattern does not match; optional group of the one pattern: true/false
+            "b" => if cfg.variant == Variant::Multi && !s.b { Cell::Null } else { Cell::Bool(s.b) },
             "d" => match s.d {
                 Some((y, m, d, h, mi, sec, ms)) => Cell::Date(y, m, d, h, mi, sec, ms),
                 // no date group: year 0, month 1, day 1 is what the assembly rule gives when groups are absent -> see below
@@ -399,6 +408,9 @@ pub fn expected_row(cfg: &TableCfg, s: &LineSpec) -> Option<Vec<Cell>> {
         return None;
     }
     if cfg.nmod == NMod::NotNull && n_val.is_null() {
+        return None;
+    }
+    if cfg.with_b && cfg.b_not_null && cfg.variant == Variant::Multi && !s.b {
         return None;
     }
     if row.iter().all(|c| c.is_null()) {
@@ -415,7 +427,7 @@ pub fn expected_row_unmatched(cfg: &TableCfg) -> Option<Vec<Cell>> {
     }
     let k_val = if cfg.kmod == KMod::Default { Cell::Text("zz".to_owned()) } else { Cell::Null };
     let n_val = if cfg.nmod == NMod::Default { Cell::Int(7) } else { Cell::Null };
-    if cfg.kmod == KMod::NotNull || cfg.nmod == NMod::NotNull {
+    if cfg.kmod == KMod::NotNull || cfg.nmod == NMod::NotNull || (cfg.with_b && cfg.b_not_null) {
         return None;
     }
     let row: Vec<Cell> = cfg.order.iter().map(|c| match *c { "k" => k_val.clone(), "n" => n_val.clone(), _ => Cell::Null }).collect();
@@ -436,7 +448,8 @@ pub fn noise_pool(cfg: &TableCfg) -> Vec<Vec<u8>> {
     let k_required = cfg.kmod == KMod::NotNull;
     let n_required = cfg.nmod == NMod::NotNull;
     // a line on which no pattern matches: every column is its DEFAULT or NULL
-    let unmatched_is_noise = !has_default || k_required || n_required;
+    let b_required = cfg.with_b && cfg.b_not_null;
+    let unmatched_is_noise = !has_default || k_required || n_required || b_required;
     let mut pool: Vec<Vec<u8>> = Vec::new();
     match cfg.variant {
         Variant::Capture => {
@@ -463,6 +476,7 @@ pub fn noise_pool(cfg: &TableCfg) -> Vec<Vec<u8>> {
                 pool.push(vec![b'#'; 300]);
             }
             // the pattern matches but no column gets a value
+            // (a BOOLEAN column on an optional group of a matching pattern is false, not NULL: NOT NULL on it is met)
             if k_required || n_required || (!cfg.with_b && !has_default) {
                 pool.push(b"E ;;;".to_vec());
             }
@@ -510,6 +524,12 @@ pub fn noise_pool(cfg: &TableCfg) -> Vec<Vec<u8>> {
             if k_required {
                 pool.push(b"ev | n=5".to_vec());
             }
+            if b_required {
+                // the BOOLEAN column's own pattern does not match: it is NULL although other columns have values
+                pool.push(b"ev | k=a | n=1 | r=0.5".to_vec());
+                pool.push(b"k=a".to_vec());
+                pool.push(b"ev | n=5 | b=n".to_vec());
+            }
         }
     }
     pool
@@ -523,7 +543,7 @@ pub fn garbage_is_noise(cfg: &TableCfg) -> bool {
     match cfg.variant {
         // field 1 of a split table always exists
         Variant::Split => n_required,
-        _ => !has_default || k_required || n_required,
+        _ => !has_default || k_required || n_required || (cfg.with_b && cfg.b_not_null),
     }
 }
 
